@@ -192,5 +192,59 @@ void h_aes_C09_statement(void)
     return o
 
 
+MODE = dict(contracts=['aesmode.h'], defines=['WV_USE_SPEC_AES'])
+MODE_CLASSES = [('AesECB_Enc', 'encryaes', 'AesEncrypt'), ('AesECB_Dec', 'decryaes', 'AesDecrypt'), ('AesCBC_Enc', 'encryaes', 'AesEncrypt'),
+                ('AesCBC_Dec', 'decryaes', 'AesDecrypt'), ('AesCTR', 'encryaes', 'AesEncrypt'), ('AesCFB_Enc', 'encryaes', 'AesEncrypt'),
+                ('AesCFB_Dec', 'encryaes', 'AesEncrypt'), ('AesOFB', 'encryaes', 'AesEncrypt')]
+
+
+def mode_obligations():
+    o = []
+    o.append(Ob('mode_getXor', ['C10', 'C02', 'C01'], enforce='Aesmode__getXor', **MODE))
+    o.append(Ob('mode_Aesmode_ctor', ['C10', 'C18', 'C02'], enforce='Aesmode__ctor', **MODE))
+    o.append(Ob('mode_ctrInc', ['C10', 'C02', 'C01'], enforce='AesCTR__ctrInc', **MODE,
+                note='128-bit big-endian increment with carries, complete over all 2^128 counter values (16-iteration loop unwound)'))
+    for cls, ciph, mid in MODE_CLASSES:
+        rep = [ciph + '__runaes_128bit', 'Aesmode__getXor'] + (['AesCTR__ctrInc'] if cls == 'AesCTR' else [])
+        if cls.startswith('AesECB'):
+            rep = [ciph + '__runaes_128bit']
+        o.append(Ob('mode_%s_runcry' % cls, ['C10', 'C02', 'C01'], enforce=cls + '__runcry', replace=rep, **MODE,
+                    note='one stream step == SP 800-38A recurrence; exactly the block, the feedback register and the cipher scratch state are assigned'))
+        o.append(Ob('mode_%s_ctor' % cls, ['C10', 'C18', 'C02'], enforce=cls + '__ctor', replace=[mid + '__ctor'], **MODE))
+    o.append(Ob('mode_AesEncrypt_ctor', ['C10', 'C18', 'C02'], enforce='AesEncrypt__ctor', replace=['Aesmode__ctor', 'encryaes__ctor'], **MODE))
+    o.append(Ob('mode_AesDecrypt_ctor', ['C10', 'C18', 'C02'], enforce='AesDecrypt__ctor', replace=['Aesmode__ctor', 'decryaes__ctor'], **MODE))
+    o.append(Ob('mode_factory', ['C10', 'C18', 'C02', 'C11'], enforce='AesFactory__createCryMaster',
+                replace=[c + '__ctor' for c, _, _ in MODE_CLASSES], **MODE,
+                note='factory maps (direction, mode number 0..4) to the stream class; NULL for other numbers'))
+    # decryptor inverts encryptor: one step of each pair over the contracts (the induction step for streams of any length)
+    pairs = [('AesECB_Enc', 'AesECB_Dec'), ('AesCBC_Enc', 'AesCBC_Dec'), ('AesCTR', 'AesCTR'), ('AesCFB_Enc', 'AesCFB_Dec'), ('AesOFB', 'AesOFB')]
+    for e, d in pairs:
+        o.append(Ob('mode_inverse_%s' % e, ['C10', 'C01'], replace=[e + '__runcry'] + ([d + '__runcry'] if d != e else []), **MODE, harness='''
+#define KS(a, r) WV_ST(&(a)->_base.crypt._base.key.key[r])
+void h_mode_inverse_%(e)s(void)
+{
+  %(e)s *enc = malloc(sizeof(%(e)s));
+  %(d)s *dec = malloc(sizeof(%(d)s));
+  u8_t *blk = malloc(16);
+  __CPROVER_assume(enc && dec && blk);
+  /* same key schedule, same feedback register */
+  for (int r = 0; r < 11; ++r)
+    __CPROVER_assume(KS(enc, r) == KS(dec, r));
+  __CPROVER_assume(WV_BLK(enc->_base._base.iv) == WV_BLK(dec->_base._base.iv));
+  wv_u128 p = WV_BLK(blk), iv = WV_BLK(enc->_base._base.iv);
+  /* instance of the proved lemma InvCipher(Cipher(x, K), K) == x (aes_lemma_cipher_inverse) at x = p ^ iv and x = p */
+#define CI(x) __CPROVER_assume(SPEC_INVCIPHER11(SPEC_CIPHER11(x, KS(enc, 0), KS(enc, 1), KS(enc, 2), KS(enc, 3), KS(enc, 4), KS(enc, 5), KS(enc, 6), KS(enc, 7), KS(enc, 8), KS(enc, 9), KS(enc, 10)), \
+    KS(enc, 0), KS(enc, 1), KS(enc, 2), KS(enc, 3), KS(enc, 4), KS(enc, 5), KS(enc, 6), KS(enc, 7), KS(enc, 8), KS(enc, 9), KS(enc, 10)) == (x))
+  CI(p ^ iv);
+  CI(p);
+  %(e)s__runcry(enc, blk);
+  %(d)s__runcry(dec, blk);
+  __CPROVER_assert(WV_BLK(blk) == p, "[C10] the decryptor step restores the block the encryptor step consumed");
+  __CPROVER_assert(WV_BLK(enc->_base._base.iv) == WV_BLK(dec->_base._base.iv), "[C10] both streams are in the same state afterwards (induction step)");
+  __CPROVER_assert(0, "WV_CANARY");
+}''' % {'e': e, 'd': d}, note='assumed instance of the proved lemma InvCipher(Cipher(x,K),K)=x'))
+    return o
+
+
 def all_obligations():
-    return aes_obligations()
+    return aes_obligations() + mode_obligations()
